@@ -25,6 +25,12 @@ func init() {
 			"NOT decided: byte-for-byte equality of consumed and produced streams as a run-time value statement (it follows from fifo-shape + locked for the single-producer/single-consumer roles, which is the argument, not a measurement).",
 		Assumptions: []string{"sync.RWMutex and channel semantics of the Go memory model", "the queue is used only through its methods (fields are unexported)"},
 		Mutants: []Mutant{
+			{ID: "C20-lock-order-inverted", Desc: "the NETCONF stores take their two locks in opposite orders (a reply that is also a notification is filed under both)", Rule: "C20/lock-order",
+				Edits: []Edit{{File: "driver/netconf/driver.go", Old: "\td.messagesLock.Lock()\n\tdefer d.messagesLock.Unlock()\n\n\td.messages[i] = b\n", New: "\td.messagesLock.Lock()\n\tdefer d.messagesLock.Unlock()\n\n\td.subscriptionsLock.Lock()\n\t_, isSub := d.subscriptions[i]\n\td.subscriptionsLock.Unlock()\n\n\tif isSub {\n\t\treturn\n\t}\n\n\td.messages[i] = b\n"},
+					{File: "driver/netconf/driver.go", Old: "\td.subscriptionsLock.Lock()\n\tdefer d.subscriptionsLock.Unlock()\n\n\td.subscriptions[i] = append(d.subscriptions[i], b)\n", New: "\td.subscriptionsLock.Lock()\n\tdefer d.subscriptionsLock.Unlock()\n\n\td.messagesLock.Lock()\n\tdelete(d.messages, i)\n\td.messagesLock.Unlock()\n\n\td.subscriptions[i] = append(d.subscriptions[i], b)\n"}}},
+			{ID: "C20-getdepth-relocks", Desc: "Queue.GetDepth calls a helper that takes the read lock again", Rule: "C20/no-reentrant-lock",
+				Edits: []Edit{{File: "util/queue.go", Old: "\tq.lock.RLock()\n\tdefer q.lock.RUnlock()\n\n\treturn q.depth\n}\n", New: "\tq.lock.RLock()\n\tdefer q.lock.RUnlock()\n\n\treturn q.getDepth()\n}\n"},
+					{File: "util/queue.go", Old: "\td := <-q.depthChan\n\tq.depthChan <- d\n\n\treturn d\n", New: "\tq.lock.RLock()\n\tdefer q.lock.RUnlock()\n\n\treturn q.depth\n"}}},
 			{ID: "C20-readall-exited-gate", Desc: "ReadAll refuses to drain once the reader has exited", Rule: "C20/readall-drains",
 				Edits: []Edit{{File: "channel/read.go", Old: "\tdefault:\n\t}\n\n\tb := c.Q.DequeueAll()", New: "\tdefault:\n\t}\n\n\tif c.readLoopExited {\n\t\treturn nil, util.ErrConnectionError\n\t}\n\n\tb := c.Q.DequeueAll()"}}},
 			{ID: "C20-value-receiver", Desc: "Queue.GetDepth takes the queue by value", Rule: "C20/pointer-receivers",
@@ -66,6 +72,8 @@ func runC20(c *Ctx, r *Report) {
 	checkReadAllDrains(c, r, "C20/readall-drains")
 	r.Rule("C20/no-reentrant-lock", "no method calls, while it holds a lock of its receiver, a method of the same receiver that takes that lock again", 1)
 	checkNoReentrantLock(c, r, "C20/no-reentrant-lock", nil)
+	r.Rule("C20/lock-order", "the library's mutexes are acquired in one global order (nested acquisitions, directly or through callees, form no cycle)", 1)
+	checkLockOrder(c, r, "C20/lock-order")
 	importFoundation(c, r, "C20", "read-loop")
 	importFoundation(c, r, "C20", "transport-pipe")
 	r.Rule("C20/ansi-bounded", "what the read loop strips before queueing cannot span ordinary output: no unbounded repetition of the escape-sequence pattern admits ESC or newline", 1)
